@@ -249,3 +249,73 @@ def write_flattened(path, img, chunk=4096, order="fwd", rng=None, holes=(), rewr
 
 def flatten_file(src, dst, **kw):
     write_flattened(dst, open(src, "rb").read(), **kw)
+
+
+# ---------------------------------------------------------------- C11: explicit flattened record streams
+def write_flat_records(path, recs, end=True, trailing=b"", sig=b"makedumpfile", ftype=1, version=1):
+    """Flattened file from an explicit record list [(pos, data-bytes)] written in that order.
+    A record may also be (pos, size, data) to lie about its size (invalid streams)."""
+    with open(path, "wb") as f:
+        f.write((sig.ljust(16, b"\0") + struct.pack(">qq", ftype, version)).ljust(4096, b"\0"))
+        for r in recs:
+            if len(r) == 2:
+                pos, data = r
+                size = len(data)
+            else:
+                pos, size, data = r
+            f.write(struct.pack(">qq", pos, size) + data)
+        if end:
+            f.write(struct.pack(">qq", -1, 0))
+        f.write(trailing)
+
+
+def rearrange(recs, size=None):
+    """The rearranged file: zeroes, then every record written in stream order."""
+    top = max([p + len(d) for p, d in recs] + [size or 0])
+    img = bytearray(top)
+    for p, d in recs:
+        img[p:p + len(d)] = d
+    return bytes(img)
+
+
+def segment_image(img, rng, cuts=(), max_rec=9000, order="shuffle", holes=True, stale=2):
+    """Cut `img` into flattened records such that rearrange(records)[:len(img)] == img:
+    record boundaries at `cuts` plus random ones, records in the given order, all-zero
+    pieces left out as holes, `stale` early records with garbage that later records overwrite."""
+    import re
+    n = len(img)
+    cs = {0, n} | {c for c in cuts if 0 < c < n}
+    if holes:
+        for m in re.finditer(rb"\x00{48,}", img):
+            cs.add(m.start()); cs.add(m.end())
+    pts = sorted(cs)
+    full = [pts[0]]
+    for a, b in zip(pts, pts[1:]):
+        p = a
+        while b - p > max_rec:
+            p += rng.randint(max(1, max_rec // 3), max_rec)
+            full.append(p)
+        full.append(b)
+    pieces = [(a, img[a:b]) for a, b in zip(full, full[1:]) if b > a]
+    stale_recs = []
+    covered = []
+    for _ in range(stale):
+        if n < 4:
+            break
+        a = rng.randrange(n - 1)
+        b = min(n, a + rng.choice([1, 7, 24, 300, 4096, 5000]))
+        stale_recs.append((a, bytes(rng.getrandbits(8) | 1 for _ in range(b - a))))
+        covered.append((a, b))
+    keep = []
+    for a, d in pieces:
+        zero = holes and not any(d) and not any(x < a + len(d) and a < y for x, y in covered)
+        if zero and rng.random() < 0.8:
+            continue
+        keep.append((a, bytes(d)))
+    if order == "rev":
+        keep.reverse()
+    elif order == "shuffle":
+        rng.shuffle(keep)
+    recs = stale_recs + keep
+    assert rearrange(recs, n)[:n] == bytes(img) and all(p + len(d) <= n for p, d in recs)
+    return recs
